@@ -502,6 +502,17 @@ def model_specs(draw, profile=None):
         fmt = d["fmt"] or "rate"
         if d["timed"]:
             data["q"][name] = {pop: {"a": g.timed_duration(dt, d["ts"])} for pop in pops}
+            if g.coin(p.get("p_timed_yfactor", 0.0)):
+                # calibration factor on the duration: keep value*factor on the same ratio classes by dividing the value
+                for pop in g.subset(pops, min_size=1):
+                    f = g.pick([2.0, 0.5, 3.0, 1.5])
+                    data["yf"].setdefault(name, {})[pop] = f
+                    if g.coin(0.5):
+                        data["q"][name][pop]["a"] = data["q"][name][pop]["a"] / f
+                g.labels.add("timed:y-factor")
+            if g.coin(p.get("p_timed_yfactor", 0.0) / 2):
+                data["myf"][name] = g.pick([2.0, 0.5])
+                g.labels.add("timed:meta-y-factor")
         else:
             data["q"][name] = {pop: g.series(fmt, years, positive=(fmt == "duration")) for pop in pops}
         if g.coin(p["p_yfactor"]) and not d["timed"]:
